@@ -95,7 +95,7 @@ def _dft_recur(
     """
     visited[v] = None
 
-    if (ff_result and ff_result(v)) or (not ff_result):
+    if ff_result is None or ff_result(v):
         yield v
 
     for w in helpers.neighbors(
@@ -308,7 +308,7 @@ def idft_iterative(
                 continue
 
             discovered.append(v)
-            if (ff_result and ff_result(v)) or (not ff_result):
+            if ff_result is None or ff_result(v):
                 yield v
 
             for w in helpers.neighbors(
